@@ -18,8 +18,6 @@ statement by statement. Loops that are `while`/recursive in Rust take a fuel arg
 namespace G
 variable {K E : Type} [DecidableEq K]
 
-abbrev Edge (K E : Type) := K × K × E
-
 structure Cfg (K E : Type) where
   adj : K → List (K × E)
   acc : K → K → E → Bool
